@@ -50,7 +50,9 @@ func init() {
 			m := &c09{s: s}
 			s.Mon = append(s.Mon, m, &overlapProbe{s: s})
 		},
-		NonTrivial: func(s *Sys) bool { return s.K.Probes["overlap-on-target"] > 0 || s.K.Probes["failed-with-successor"] > 0 },
+		NonTrivial: func(s *Sys) bool {
+			return s.K.Probes["overlap-on-target"] > 0 || s.K.Probes["failed-with-successor"] > 0
+		},
 	}
 }
 
